@@ -561,13 +561,13 @@ def run_native_unit(uid, cfg, tier='quick'):
     rc, so, se, wall, to = limited(cmd, cfg.get('mem_gb', 8), cfg.get('timeout_s', 900), cwd=crate, env=env)
     if to:
         res['reason'] = 'witness search timed out'
-    elif 'WITNESS ' in so:
-        w = so[so.index('WITNESS ') + 8:].split('\n')[0]
+    elif re.search(r'(?m)^WITNESS ', so):
+        w = re.search(r'(?m)^WITNESS (.*)$', so).group(1)
         clause = re.sub(r'[^a-z0-9\-]+', '-', w.split(':')[0].lower())[:40]
         res['status'] = 'fail'
         res['failed'] = [{'id': '%s.witness.%s' % (uid, clause), 'kind': 'concrete-failing-input', 'message': w,
                           'witness_text': w, 'rendered': 'native run of the extracted real code: ' + w}]
-    elif 'NO-WITNESS' in so:
+    elif re.search(r'(?m)^NO-WITNESS', so):
         res['status'] = 'pass'
         res['bounded'] = [{'harness': cfg['bin'], 'bound': cfg.get('pool', 'input pool'), 'checks': 0, 'verdict': 'NO-WITNESS'}]
     else:
